@@ -40,6 +40,9 @@ fn plans(tier: Tier) -> Vec<SectionPlan> {
         "256,192,600,12,0,900",
         "64,192,700,128,0,900:0:0:0:0:",
         "50,50,800,2,0,C|60:70|80:30,2,90,2|0|4,0:0|1:2|0:0",
+        // sliders whose path is only the type letter / empty: any shortcut for them must still start from clean buffers
+        "256,192,450,2,0,L,1,100",
+        "256,192,470,2,0,,2,40",
         // corruptions: rejected after partial progress
         "100,100,310,2,0,B|10:10|20:20|L|30:30|xx:1,1,100",
         "100,100,320,2,0,B|10:10|10:10|20:20|P|30:30|40:x,1,100",
